@@ -37,6 +37,11 @@ Checks(r) ==
   ELSE IF r.kind = "dup" THEN
     {<<"DuplicatesBothMaterialise", (r.ok /\ ~o.forcecas) => (r.first /\ r.second)>>,
      <<"PipelineSucceeds", r.ok>>}
+  ELSE IF r.kind = "second" THEN
+    \* a second artifact that reuses a name with other bytes, copied into the same file store: a store that holds one
+    \* file per name may refuse it; it must not report success and keep the first artifact's bytes
+    {<<"FirstReleaseRestored", r.ok>>,
+     <<"SecondReleaseNeverStale", r.ok2 => (r.fresh /\ r.exists2 /\ r.fetch2)>>}
   ELSE \* "tamper": a wrong uncompressed digest must make the unpack fail
     {<<"UncompressedDigestVerified", ~r.ok>>}
 
